@@ -7,6 +7,7 @@ From Coq Require Import NArith List Bool.
 Import ListNotations.
 Require Import PV.Scopes.Syntax PV.Scopes.Analysis PV.Scopes.Paths PV.Scopes.Guards.
 Require Import PV.Proofs.ScopesMaps PV.Proofs.ScopesSound PV.Proofs.ScopesUpper PV.Proofs.ScopesWitness.
+Require Import PV.Scopes.Sop PV.Scopes.Shapes PV.Gen.Scopes.
 Open Scope N_scope.
 
 (* The lower bound at full strength: every definition (or the unbound state) that reaches a
@@ -96,3 +97,37 @@ Theorem C09_reported_sub_liberal_partial : forall p u d,
   upper1_ok p = true -> In d (reported p u) -> liberal_reach p u d.
 Proof. exact reported_sub_liberal_flat. Qed.
 Print Assumptions C09_reported_sub_liberal_partial.
+
+(* ---- the source still has the shape the model was written for.  PV.Gen.Scopes is regenerated
+   on every run from stacked_scopes.py (FunctionScope.subscope, loop_scope, get_combined_scope,
+   combine_subscopes, suppressing_subscope, set, get_local) and name_check_visitor.py (visit_If,
+   visit_While, visit_For, _handle_loop_else, visit_try_except, visit_Try, visit_With,
+   visit_single_cm, visit_Break/Continue/Return/Raise): the scope program of each function
+   (see harness/translate/scopes.py) must equal the one recorded in Scopes/Shapes.v. *)
+Theorem C09_source_scope_operations_unchanged :
+  gen_scope_subscope = exp_scope_subscope /\ gen_scope_loop_scope = exp_scope_loop_scope /\
+  gen_scope_get_combined_scope = exp_scope_get_combined_scope /\
+  gen_scope_combine_subscopes = exp_scope_combine_subscopes /\
+  gen_scope_suppressing_subscope = exp_scope_suppressing_subscope /\
+  gen_scope_set = exp_scope_set /\ gen_scope_get_local = exp_scope_get_local.
+Proof.
+  exact (conj gen_scope_subscope_is_expected (conj gen_scope_loop_scope_is_expected
+    (conj gen_scope_get_combined_scope_is_expected (conj gen_scope_combine_subscopes_is_expected
+    (conj gen_scope_suppressing_subscope_is_expected (conj gen_scope_set_is_expected gen_scope_get_local_is_expected)))))).
+Qed.
+Print Assumptions C09_source_scope_operations_unchanged.
+
+Theorem C09_source_visitors_unchanged :
+  gen_visit_If = exp_visit_If /\ gen_visit_While = exp_visit_While /\ gen_visit_For = exp_visit_For /\
+  gen_visit_handle_loop_else = exp_visit_handle_loop_else /\
+  gen_visit_try_except = exp_visit_try_except /\ gen_visit_Try = exp_visit_Try /\
+  gen_visit_With = exp_visit_With /\ gen_visit_single_cm = exp_visit_single_cm /\
+  gen_visit_Break = exp_visit_Break /\ gen_visit_Continue = exp_visit_Continue /\
+  gen_visit_Return = exp_visit_Return /\ gen_visit_Raise = exp_visit_Raise.
+Proof.
+  exact (conj gen_visit_If_is_expected (conj gen_visit_While_is_expected (conj gen_visit_For_is_expected
+    (conj gen_visit_handle_loop_else_is_expected (conj gen_visit_try_except_is_expected (conj gen_visit_Try_is_expected
+    (conj gen_visit_With_is_expected (conj gen_visit_single_cm_is_expected (conj gen_visit_Break_is_expected
+    (conj gen_visit_Continue_is_expected (conj gen_visit_Return_is_expected gen_visit_Raise_is_expected))))))))))).
+Qed.
+Print Assumptions C09_source_visitors_unchanged.
